@@ -32,16 +32,16 @@ def sortStrs (l : List String) : List String := l.mergeSort (fun a b => decide (
 def stateStr : ChState → String
   | .init => "init" | .tryopen => "tryopen" | .opened => "open" | .closed => "closed"
 
-def fmtSide (s : Side) : Json :=
+def fmtSide (ctrl : Bool) (s : Side) : Json :=
   let chans := s.chans.mergeSort (fun a b => decide (a.1 ≤ b.1))
   Json.mkObj [
     ("chans", Json.arr (chans.map fun (id, c) => Json.mkObj [
-        ("id", id), ("state", stateStr c.state), ("order", match c.order with | .ordered => "ordered" | .unordered => "unordered"),
+        ("id", id), ("port", if ctrl then c.port else c.cpPort), ("state", stateStr c.state), ("order", match c.order with | .ordered => "ordered" | .unordered => "unordered"),
         ("cp", c.cpChan), ("address", match c.md with | some m => m.address | none => "")]).toArray),
     ("active", Json.arr ((sortStrs (s.active.map fun (k, id) => k.1 ++ "|" ++ k.2 ++ "|" ++ id)).map Json.str).toArray),
     ("addr", Json.arr ((sortStrs (s.addr.map fun (k, a) => k.1 ++ "|" ++ k.2 ++ "|" ++ a)).map Json.str).toArray)]
 
-def fmtWorld (w : World) : Json := Json.mkObj [("ctrl", fmtSide w.ctrl), ("host", fmtSide w.host)]
+def fmtWorld (w : World) : Json := Json.mkObj [("ctrl", fmtSide true w.ctrl), ("host", fmtSide false w.host)]
 
 def getOrder (j : Json) : Except String Order := do
   match ← str j "order" with
